@@ -49,9 +49,12 @@ Lemma p_names_consumes : forall bs nm r, p_names bs = Some (nm, r) -> (4 + lengt
 Proof.
   intros bs nm r H. unfold p_names in H. destruct (p_i32_nonneg bs) as [[l r0]|] eqn:E; [|discriminate].
   apply p_i32_consumes in E.
-  destruct (split_nul (firstn (N.to_nat l) r0) []) as [names|]; [|discriminate].
-  destruct (nodupb names); [|discriminate]. injection H as _ Hr. subst r.
-  rewrite skipn_length. lia.
+  (* whatever checks follow, the rest is a skipn of what followed l_nm *)
+  repeat match type of H with
+         | (match ?x with _ => _ end) = _ => destruct x; try discriminate H
+         | (if ?c then _ else _) = _ => destruct c; try discriminate H
+         end.
+  injection H as _ Hr. subst r. rewrite skipn_length. lia.
 Qed.
 
 (* the tabix header: six 4-byte fields, l_nm and at most the names block *)
